@@ -29,8 +29,11 @@ pub uninterp spec fn drain_view<'a, T, A: std::alloc::Allocator>(d: std::vec::Dr
 pub uninterp spec fn iter_view<T, I>(i: I) -> Seq<T>;
 pub uninterp spec fn rstart<R>(r: R) -> int;
 pub uninterp spec fn rend<R>(r: R) -> int;
-pub broadcast axiom fn range_bounds(r: Range<usize>)
-    ensures #[trigger] rstart::<Range<usize>>(r) == r.start as int, #[trigger] rend::<Range<usize>>(r) == r.end as int;
+// (two single-trigger axioms: one axiom with both terms as a multi-pattern made the proof depend on solver luck)
+pub broadcast axiom fn range_start(r: Range<usize>)
+    ensures #[trigger] rstart::<Range<usize>>(r) == r.start as int;
+pub broadcast axiom fn range_end(r: Range<usize>)
+    ensures #[trigger] rend::<Range<usize>>(r) == r.end as int;
 pub broadcast axiom fn drain_is_iter<'a, T, A: std::alloc::Allocator>(d: std::vec::Drain<'a, T, A>)
     ensures #[trigger] iter_view::<T, std::vec::Drain<'a, T, A>>(d) == drain_view(d);
 
@@ -62,6 +65,6 @@ fn partition_tail<G>(config: &DedupeConfig, to_retain: Vec<G>, to_drop: Vec<G>) 
         ({ let n = if config.rf_over.is_some() && config.rf_over.unwrap() > 1 { config.rf_over.unwrap() as int } else { 1int };
            r.0@.len() <= (if to_retain@.len() >= n { to_retain@.len() as int } else { n }) }), // @ob C08.partition_tail.exactly_n_survive_when_droppable
 {
-    broadcast use max_usize, min_usize, range_bounds, drain_is_iter;
+    broadcast use max_usize, min_usize, range_start, range_end, drain_is_iter;
     let mut to_retain = to_retain;
     let mut to_drop = to_drop;
